@@ -540,3 +540,163 @@ Proof.
   - intros n k. rewrite lookup_rename_crates by apply (ordered_nodup ho1). now rewrite defs_of_order.
 Qed.
 End Arrival.
+
+(* ====================================================================================== *)
+(* (5) the import lists: two iteration orders of CrateTypes, two type tables equal as sets   *)
+(* ====================================================================================== *)
+Definition tt_rel (t1 t2 : crate_types) : Prop := Forall2 (fun x y => fst x = fst y /\ set_eq (snd x) (snd y)) t1 t2.
+
+Lemma all_types_rel cs1 cs2 : cs_same cs1 cs2 -> tt_rel (all_types cs1) (all_types cs2).
+Proof.
+  unfold all_types. induction 1 as [|x y l1 l2 [HK (_ & HT & _)] _ IH]; [constructor|]. cbn [map]. constructor; [|exact IH]. cbn [fst snd]. auto.
+Qed.
+Lemma tt_rel_keys t1 t2 : tt_rel t1 t2 -> map fst t1 = map fst t2.
+Proof. induction 1 as [|x y l1 l2 [HK _] _ IH]; [reflexivity|]. cbn [map]. now rewrite HK, IH. Qed.
+Lemma tt_rel_get t1 t2 d : tt_rel t1 t2 ->
+  match crate_types_get t1 d, crate_types_get t2 d with
+  | Some a, Some b => set_eq a b | None, None => True | _, _ => False
+  end.
+Proof.
+  induction 1 as [|[k1 a] [k2 b] l1 l2 [HK HS] _ IH]; [exact I|]. cbn [fst snd] in HK, HS. subst k2.
+  cbn [crate_types_get]. destruct (str_eqb k1 d); [exact HS|exact IH].
+Qed.
+Lemma get06_ctg (t : crate_types) d : get06 t d = crate_types_get t d.
+Proof. induction t as [|[k a] t IH]; [reflexivity|]. cbn [get06 crate_types_get]. now rewrite IH. Qed.
+
+Lemma get_oracle_eq (hc : crate_types -> crate_types) ct d : oracle_ok hc -> NoDup (map fst ct) ->
+  crate_types_get (hc ct) d = crate_types_get ct d.
+Proof.
+  intros Ho ND. destruct (crate_types_get ct d) as [names|] eqn:G.
+  - apply crate_types_get_in in G. now apply crate_types_get_oracle.
+  - destruct (crate_types_get (hc ct) d) as [names'|] eqn:G'; [|reflexivity].
+    apply crate_types_get_in in G'. apply (proj1 (Ho _ _)) in G'.
+    destruct (crate_types_get_some _ _ _ G') as (n'' & K & _). congruence.
+Qed.
+
+Definition fb_pred (own n : str) (kv : str * list str) : bool := negb (str_eqb (fst kv) own) && mem_str n (snd kv).
+
+Lemma tt_rel_sat t1 t2 own n k : tt_rel t1 t2 ->
+  ((exists kv, In kv t1 /\ fst kv = k /\ fb_pred own n kv = true) <-> (exists kv, In kv t2 /\ fst kv = k /\ fb_pred own n kv = true)).
+Proof.
+  induction 1 as [|[k1 a] [k2 b] l1 l2 [HK HS] _ IH]; [split; intros (kv & [] & _)|]. cbn [fst snd] in HK, HS. subst k2.
+  assert (E : fb_pred own n (k1, a) = fb_pred own n (k1, b)) by (unfold fb_pred; cbn [fst snd]; now rewrite (mem_str_set_eq n a b HS)).
+  split; intros (kv & [<-|Hin] & Hk & Hp).
+  - exists (k1, b). split; [now left|]. split; [exact Hk|now rewrite <- E].
+  - destruct (proj1 IH (ex_intro _ kv (conj Hin (conj Hk Hp)))) as (kv' & H1 & H2 & H3). exists kv'. split; [now right|auto].
+  - exists (k1, a). split; [now left|]. split; [exact Hk|now rewrite E].
+  - destruct (proj2 IH (ex_intro _ kv (conj Hin (conj Hk Hp)))) as (kv' & H1 & H2 & H3). exists kv'. split; [now right|auto].
+Qed.
+
+Lemma fallback_eq (hc1 hc2 : crate_types -> crate_types) t1 t2 own n : oracle_ok hc1 -> oracle_ok hc2 -> tt_rel t1 t2 ->
+  (forall kv kv', In kv t1 -> In kv' t1 -> fb_pred own n kv = true -> fb_pred own n kv' = true -> fst kv = fst kv') ->
+  import_fallback (hc1 t1) own n [] = import_fallback (hc2 t2) own n [].
+Proof.
+  intros H1 H2 HR HU. unfold import_fallback. fold (fb_pred own n).
+  destruct (find (fb_pred own n) (hc1 t1)) as [kv1|] eqn:F1; destruct (find (fb_pred own n) (hc2 t2)) as [kv2|] eqn:F2.
+  - apply find_some in F1 as [I1 P1]. apply find_some in F2 as [I2 P2]. apply (proj1 (H1 _ _)) in I1. apply (proj1 (H2 _ _)) in I2.
+    destruct (proj2 (tt_rel_sat t1 t2 own n (fst kv2) HR) (ex_intro _ kv2 (conj I2 (conj eq_refl P2)))) as (kv & Ik & Ek & Pk).
+    now rewrite (HU kv1 kv I1 Ik P1 Pk), Ek.
+  - exfalso. apply find_some in F1 as [I1 P1]. apply (proj1 (H1 _ _)) in I1.
+    destruct (proj1 (tt_rel_sat t1 t2 own n (fst kv1) HR) (ex_intro _ kv1 (conj I1 (conj eq_refl P1)))) as (kv & Ik & _ & Pk).
+    apply (proj2 (H2 _ _)) in Ik. rewrite (find_none _ _ F2 _ Ik) in Pk. discriminate.
+  - exfalso. apply find_some in F2 as [I2 P2]. apply (proj1 (H2 _ _)) in I2.
+    destruct (proj2 (tt_rel_sat t1 t2 own n (fst kv2) HR) (ex_intro _ kv2 (conj I2 (conj eq_refl P2)))) as (kv & Ik & _ & Pk).
+    apply (proj2 (H1 _ _)) in Ik. rewrite (find_none _ _ F1 _ Ik) in Pk. discriminate.
+  - reflexivity.
+Qed.
+
+Lemma sset_extend_set_eq a b : set_eq a b -> sset_extend [] a = sset_extend [] b.
+Proof.
+  intros H. apply sorted_ext; [apply sset_extend_sorted; constructor|apply sset_extend_sorted; constructor|].
+  intros x. rewrite !sset_extend_in. cbn [In]. now rewrite (H x).
+Qed.
+
+Definition fb_unique (t : crate_types) (own n : str) : Prop :=
+  forall kv kv', In kv t -> In kv' t -> fb_pred own n kv = true -> fb_pred own n kv' = true -> fst kv = fst kv'.
+
+Lemma step_eq (hc1 hc2 : crate_types -> crate_types) t1 t2 own imp : oracle_ok hc1 -> oracle_ok hc2 -> NoDup (map fst t1) -> tt_rel t1 t2 ->
+  (str_eqb (base_crate imp) own = false -> import_resolves t1 imp = false -> fb_unique t1 own (type_name imp)) ->
+  used_imports_step (hc1 t1) own [] imp = used_imports_step (hc2 t2) own [] imp.
+Proof.
+  intros H1 H2 ND HR HU. unfold used_imports_step. destruct (str_eqb (base_crate imp) own) eqn:EO; [reflexivity|].
+  specialize (HU eq_refl). unfold import_resolves in HU. rewrite get06_ctg in HU.
+  rewrite (get_oracle_eq hc1 t1 _ H1 ND), (get_oracle_eq hc2 t2 _ H2) by (rewrite <- (tt_rel_keys _ _ HR); exact ND).
+  pose proof (tt_rel_get t1 t2 (base_crate imp) HR) as G.
+  destruct (crate_types_get t1 (base_crate imp)) as [a|], (crate_types_get t2 (base_crate imp)) as [b|]; try destruct G.
+  - change GLOB06 with GLOB in HU. destruct (str_eqb (type_name imp) GLOB).
+    + cbn [scoped_extend]. now rewrite (sset_extend_set_eq a b G).
+    + rewrite <- (mem_str_set_eq (type_name imp) a b G). destruct (mem_str (type_name imp) a); [reflexivity|].
+      apply fallback_eq; [exact H1|exact H2|exact HR|apply HU; reflexivity].
+  - apply fallback_eq; [exact H1|exact H2|exact HR|apply HU; reflexivity].
+Qed.
+
+Lemma used_imports_eq ct1 ct2 own im1 im2 : set_eq im1 im2 ->
+  (forall imp, In imp im1 -> used_imports_step ct1 own [] imp = used_imports_step ct2 own [] imp) ->
+  used_imports ct1 own im1 = used_imports ct2 own im2.
+Proof.
+  intros HS HE. apply scoped_ext; [apply used_imports_wf|apply used_imports_wf| |].
+  - intros k. rewrite !used_imports_keys. split; intros (x & Hx & K).
+    + exists x. split; [now apply HS|now rewrite <- HE].
+    + apply HS in Hx. exists x. split; [exact Hx|now rewrite HE].
+  - intros k n. rewrite !used_imports_pairs. split; intros (x & Hx & K).
+    + exists x. split; [now apply HS|now rewrite <- HE].
+    + apply HS in Hx. exists x. split; [exact Hx|now rewrite HE].
+Qed.
+
+(* ---------- the plan ---------- *)
+Definition plan_same (p q : out_plan) : Prop :=
+  op_file p = op_file q /\ op_crate p = op_crate q /\ op_imports p = op_imports q /\ same_items (op_data p) (op_data q).
+
+Definition mk_plan (l : lang) (ct : crate_types) (c : str * parsed) : out_plan :=
+  {| op_file := output_file_name l (fst c); op_crate := fst c; op_imports := used_imports ct (fst c) (p_imports (snd c)); op_data := snd c |}.
+Lemma multi_plan_mk l hc cs : multi_plan l hc cs = map (mk_plan l (hc (all_types cs))) cs.
+Proof. reflexivity. Qed.
+
+Lemma plan_map_same l ct1 ct2 l1 l2 : cs_same l1 l2 ->
+  (forall c pd, In (c, pd) l1 -> forall imp, In imp (p_imports pd) -> used_imports_step ct1 c [] imp = used_imports_step ct2 c [] imp) ->
+  Forall2 plan_same (map (mk_plan l ct1) l1) (map (mk_plan l ct2) l2).
+Proof.
+  induction 1 as [|[k1 a] [k2 b] l1 l2 [HK (HI & _ & HM & _)] _ IH]; intros HE; [constructor|]. cbn [fst snd] in *. subst k2.
+  cbn [map]. constructor.
+  - unfold plan_same, mk_plan. cbn [op_file op_crate op_imports op_data fst snd]. repeat split; try apply HI.
+    apply used_imports_eq; [exact HM|]. apply (HE k1 a). now left.
+  - apply IH. intros c pd H. apply (HE c pd). now right.
+Qed.
+
+Lemma all_types_multi ho l : all_types (multi_crates ho l) = all_types (collect l).
+Proof. unfold multi_crates, reconcile_aliases, order_imports, all_types. rewrite !map_map. reflexivity. Qed.
+
+Lemma multi_crates_entry' ho l c pd : In (c, pd) (multi_crates ho l) ->
+  exists p, In (c, p) (collect l) /\ p_imports pd = imports_iter ho p.
+Proof.
+  unfold multi_crates, reconcile_aliases. intros H. apply in_map_iff in H as ([k q] & E & H). cbn [fst snd] in E. injection E as <- <-.
+  apply order_imports_entry in H as (p & Hp & ->). exists p. split; [exact Hp|reflexivity].
+Qed.
+
+Lemma fallback_unique tt own im imp :
+  fallback_ambiguous tt own im = false -> In imp im ->
+  str_eqb (base_crate imp) own = false -> import_resolves tt imp = false -> fb_unique tt own (type_name imp).
+Proof.
+  intros HA Hin EO ER. pose proof (existsb_false _ _ imp HA Hin) as F. cbn beta in F. rewrite EO, ER in F. cbn [negb andb] in F.
+  intros kv kv' I1 I2 P1 P2. f_equal.
+  apply (length_le1_eq (fallback_targets tt own (type_name imp))).
+  - destruct (fallback_targets tt own (type_name imp)) as [|x [|y r]]; cbn [List.length]; [lia|lia|discriminate].
+  - apply filter_In. split; [exact I1|exact P1].
+  - apply filter_In. split; [exact I2|exact P2].
+Qed.
+
+Theorem multi_plan_same lang l1 l2 ho1 ho2 (hc1 hc2 : crate_types -> crate_types) :
+  Permutation l1 l2 -> all_distinct (collect l1) -> ws_ambiguity (collect l1) = None ->
+  oracle_ok ho1 -> oracle_ok ho2 -> oracle_ok hc1 -> oracle_ok hc2 ->
+  Forall2 plan_same (multi_plan lang hc1 (multi_crates ho1 l1)) (multi_plan lang hc2 (multi_crates ho2 l2)).
+Proof.
+  intros HP HD HA Ho1 Ho2 Hc1 Hc2.
+  pose proof (multi_crates_same l1 l2 HP HD ho1 ho2 (ws_ambiguity_rename _ HA) Ho1 Ho2) as HS.
+  rewrite !multi_plan_mk. apply plan_map_same; [exact HS|].
+  intros c pd Hin imp Himp. apply step_eq; [exact Hc1|exact Hc2| |now apply all_types_rel|].
+  - rewrite all_types_multi. unfold all_types. rewrite map_map. apply collect_nodup.
+  - rewrite all_types_multi. apply multi_crates_entry' in Hin as (p & Hp & E). rewrite E in Himp.
+    destruct (ws_ambiguity_entry _ c p HA Hp) as [_ HF].
+    apply (fallback_unique _ c (p_imports p)); [exact HF|].
+    unfold imports_iter in Himp. apply (proj1 (Ho1 _ _)) in Himp. apply imp_extend_in in Himp as [[]|Himp]. exact Himp.
+Qed.
